@@ -1,7 +1,7 @@
 (* Histories over one data directory: chain constructions, value requests, forcing, inspection,
    process restarts and fault injection.  One `step` per public operation. *)
 From Coq Require Import String Ascii List Bool Arith ZArith.
-From TC Require Import PyStr Value Dict Repr Param Names Config Key Chain World Eval.
+From TC Require Import PyStr Value Dict Repr Param Names Config Key Chain Graph World Eval.
 Import ListNotations.
 
 Inductive op :=
@@ -41,23 +41,7 @@ Section History.
 
   Definition depth (h : hstate) : nat := S (List.length (w_objs (h_world h))).
 
-  (* objects of a chain that transitively depend on `id` (nx.descendants), by fuelled closure *)
   Definition chain_ids (c : list (str * nat)) : list nat := nodup Nat.eq_dec (map snd c).
-  Definition depends_directly (objs : list obj) (i j : nat) : bool :=
-    match nth_error objs i with
-    | Some o => existsb (fun inp => match snd inp with inl k => Nat.eqb k j | inr _ => false end) (o_inputs o)
-    | None => false
-    end.
-  Fixpoint closure (fuel : nat) (objs : list obj) (ids : list nat) (acc : list nat) : list nat :=
-    match fuel with
-    | O => acc
-    | S f =>
-        let next := filter (fun i => negb (existsb (Nat.eqb i) acc) && existsb (depends_directly objs i) acc) ids in
-        match next with
-        | [] => acc
-        | _ => closure f objs ids (acc ++ next)
-        end
-    end.
 
   Definition force_obj (delete : bool) (w : Eval.world) (id : nat) : Eval.world :=
     match nth_error (w_objs w) id with
@@ -120,7 +104,7 @@ Section History.
         | None => (h, err)
         | Some c =>
             let roots := flat_map (fun n => match dget n c with Some i => [i] | None => [] end) names in
-            let forced := closure (depth h) (w_objs w) (chain_ids c) (nodup Nat.eq_dec roots) in
+            let forced := closure_from (input_edge (w_objs w)) (chain_ids c) (nodup Nat.eq_dec roots) in
             let w1 := fold_left (force_obj delete) forced w in
             let w2 := if recompute
                       then fold_left (fun wa i => fst (eval classes_of_world run (depth h) wa i)) forced w1
